@@ -1,4 +1,5 @@
-"""C18 -- certificate hot-reload is all-or-nothing.  Driver: cert (stateful, real CertReloader in a temp dir).
+"""C18 -- certificate hot-reload is all-or-nothing.  Drivers: cert (stateful, real CertReloader in a temp dir),
+certlisten (the same behind a real `Server::listen` accept loop on a loopback socket; oracle only).
 
 Test material (ECDSA P-256 key pairs and self-signed certificates) is generated once per run by the
 harness command `certgen` (rcgen) with serial, subject and validity chosen HERE, so that the oracle knows
@@ -18,10 +19,11 @@ RULE = ("histories over a pool of 4 key pairs (+ renewals with the same key, cer
         "garbage of 9 kinds in either file, missing files, expired certificates with the check on and off, every "
         "combination of (first certificate read, key read, second certificate read) over a 9x5x9 alphabet with an update "
         "landing between the reads of one (re)load (FIFO-switched file), accepted-before / established-before connections "
-        "across reloads, random histories. Non-trivial = the history contains an accepted and a refused reload, or a reload "
+        "across reloads, random histories; 6 scenarios through the real accept loop of Server::listen on a loopback socket "
+        "(the next three connections after each successful reload must see the new leaf). Non-trivial = the history contains an accepted and a refused reload, or a reload "
         "whose two certificate reads differ, or a handshake of a connection accepted before a later successful reload; "
         "distinct by sha256 of the symbolic history.")
-SIDE_LEMMAS = 8
+SIDE_LEMMAS = 9
 ASSUMPTIONS = [
     "PEM / X.509 parsing (rustls-pemfile, x509-parser), the key-match test inside rustls (with_single_cert) and the file "
     "system are environment oracles: section variables in the theorems, classified by construction in the correspondence check",
@@ -223,7 +225,7 @@ def cls_tok(c):
     return "~".join(str(x) for x in c)
 
 
-def mk(m, cid, ce, ops, kind, nontrivial=None):
+def mk(m, cid, ce, ops, kind, nontrivial=None, drv="cert", model=True):
     """build a Case from a symbolic history: ops use blob NAMES (Wc:C0, RR:C0:K0:C1, '-' = absent)"""
     names, idx = [], {}
 
@@ -247,7 +249,7 @@ def mk(m, cid, ce, ops, kind, nontrivial=None):
     for n in names:
         b = resolve(m, n)
         toks.append("%s|%s|%s" % (hx(b), cls_tok(m.as_cert(b)), cls_tok(m.as_key(b))))
-    c = Case(cid, "cert", [str(ce), str(len(names))] + toks + out, kind, False, meta={"history": " ".join(ops), "blobs": names})
+    c = Case(cid, drv, [str(ce), str(len(names))] + toks + out, kind, False, meta={"history": " ".join(ops), "blobs": names}, model=model)
     c.nontrivial = is_nontrivial(c) if nontrivial is None else nontrivial
     return c
 
@@ -335,6 +337,8 @@ def oracle(c, ir):
     keep the certificate they started with."""
     if ir.startswith("PANIC") or "BADOP" in ir or ir.startswith("BADCASE"):
         return "driver failed: " + ir[:200]
+    if c.drv == "certlisten":
+        return oracle_listen(c, ir)
     ce, blobs, ops = decode(c)
     toks = ir.split()
     pos = 0
@@ -443,6 +447,47 @@ def oracle(c, ir):
                 return "op %d: session %d established with %s was disturbed: %s" % (step, j, exp[2:], t[2:])
     if pos != len(toks):
         return "unexpected extra output: " + " ".join(toks[pos:])[:120]
+    return None
+
+
+def oracle_listen(c, ir):
+    """Real listener (server.rs `listen`) on a loopback socket: every connection made after a successful
+    reload is served the NEW leaf -- the very next one included --, a failed reload keeps the current one."""
+    ce, blobs, ops = decode(c)
+    toks = ir.split()
+    if len(toks) != sum(1 for o in ops if o.split(":")[0] in ("N", "R", "C")):
+        return "listener scenario: %d results for the history %s: %s" % (len(toks), c.meta.get("history"), ir[:200])
+    pos, leaf, since = 0, None, None
+    for step, p, rd in walk(c):
+        if p[0] not in ("N", "R", "C"):
+            continue
+        t = toks[pos]
+        pos += 1
+        if p[0] == "N":
+            ok = valid_pair(blobs, rd[0], rd[1], ce, False)
+            if (ok and t != "new=ok") or (not ok and not t.startswith("new=err")):
+                return "op %d: listener start gave %s" % (step, t)
+            if ok:
+                leaf = blobs[rd[0]][0][1]
+        elif leaf is None:
+            if t not in ("r=noreloader", "c=noserver"):
+                return "op %d: %s without a running listener" % (step, t)
+        elif p[0] == "R":
+            ok = valid_pair(blobs, rd[0], rd[1], ce, True)
+            if ok and t != "r=ok":
+                return "op %d: a complete, matching, unexpired pair on a stable disk was refused (%s)" % (step, t)
+            if not ok and not t.startswith("r=err"):
+                return "op %d: reload accepted a disk state that is not a valid pair (%s)" % (step, t)
+            if ok:
+                leaf, since = blobs[rd[0]][0][1], 0
+        else:
+            if t != "c=" + leaf:
+                if since is not None:
+                    return ("op %d: connection no. %d after the successful reload was served leaf %s by the listening server, "
+                            "the active certificate is %s (the accept loop used a snapshot taken before the reload)" % (step, since + 1, t[2:], leaf))
+                return "op %d: the listening server presented %s, the active certificate is %s" % (step, t[2:], leaf)
+            if since is not None:
+                since += 1
     return None
 
 
@@ -558,6 +603,16 @@ def gen_cases(tier, seed):
                       ("C1", "K0", "C0"), ("C0", "K1", "C1"), ("Y0", "K0", "R0")]:
         add(1, ["NN:%s:%s:%s" % (a, k, b), "A", "R", "H:0"], "explicit-reads-initial")
         add(0, ["Wc:C1", "Wk:K1", "N", "RR:%s:%s:%s" % (a, k, b), "R"], "explicit-reads-nocheck")
+    # ---- the real accept loop (server.rs `listen`) on a loopback socket: oracle only, real time
+    for ce, ops in [
+        (1, "Wc:C0 Wk:K0 N C C Wc:C1 R C Wk:K1 R C C C Wc:G.text R C Wc:C0 Wk:K0 R C C C"),
+        (1, "Wc:C1 Wk:K1 N C Wk:K0 R C Wc:C0 R C C C Wc:Y0 R C Wc:R0 R C C C"),
+        (1, "Wc:C0 Wk:K0 N C Wc:C1 Wk:K1 R Wc:C2 Wk:K2 R C C C Dk R C Wk:K2 R C"),
+        (1, "Wc:C0 Wk:K0 N Wc:C1 Wk:K1 R C C C"),
+        (0, "Wc:C0 Wk:K0 N C Wc:X0 R C C C Wc:C0 R C C C"),
+        (1, "Wc:C0 Wk:K0 N C Wc:C1^200 Wk:K1 R C Wc:C1 R C C C Wk:K1^100 R C"),
+    ]:
+        cs.append(mk(m, "c%d" % (len(cs) + 1), ce, ops.split(), "listener-real-socket", True, drv="certlisten", model=False))
     # ---- random histories
     nrand = 240 if tier == "quick" else 3000
     cnames = ["C0", "C1", "C2", "C3", "R0", "R1", "X0", "Y0", "S0", "G.text", "G.badcert", "CK0", "C1C0"]
@@ -594,6 +649,11 @@ def gen_cases(tier, seed):
 
 
 # ------------------------------------------------------------------------------- shrinking
+def fclass(f):
+    """class of an oracle failure: its text without operation indices, fingerprints and counters"""
+    return re.sub(r"\(.*?\)|[0-9a-f]{16}|\d+", "#", f)[:48]
+
+
 def shrink(c, f):
     """drop operations from the symbolic history while the oracle still fails on the implementation"""
     import vlib
@@ -603,14 +663,14 @@ def shrink(c, f):
 
     def fails(o):
         try:
-            cc = mk(m, "shrink", ce, o, c.kind, True)
+            cc = mk(m, "shrink", ce, o, c.kind, True, drv=c.drv, model=c.model)
         except Exception:
             return None
         res, _ = vlib.run_impl([cc.line()], shards=1, timeout=60)
         if "shrink" not in res:
             return None
         ff = oracle(cc, res["shrink"])
-        return (cc, ff) if ff else None
+        return (cc, ff) if ff and fclass(ff) == fclass(f) else None
     best = (c, f)
     changed = True
     while changed and len(ops) > 1:
